@@ -1,6 +1,7 @@
 package main
 
 import (
+	"bytes"
 	"fmt"
 
 	otr3 "github.com/coyim/otr3"
@@ -193,6 +194,38 @@ func c15RejectedFragments(c *Ctx) {
 			s.tick(200)
 			if !s.Handshake(2, 1) {
 				c.Violate("genuine-peer-cut-off", what, "after a rejected fragment claiming another instance the genuine peer can no longer establish a session", map[string]string{"fragment": string(frag)})
+			}
+		}
+	}
+}
+
+// a fragment without tags (version 2 format) is not for a version 3 conversation: shown between the pieces of the
+// peer's message it must not disturb their reassembly
+func c15TaglessFragments(c *Ctx) {
+	const our = 0x205
+	for _, intr := range []string{"?OTR,00001,00002,zz,", "?OTR,00001,00001,zz,", "?OTR,00002,00003,zz,"} {
+		for at := 1; at <= 2; at++ {
+			conv := newPlainConv(3, our)
+			data := c.genPayload(80)
+			pieces := otr3.VerifFragment(3, 0x301, our, data, 70)
+			if len(pieces) < 3 {
+				continue
+			}
+			var got [][]byte
+			for i, p := range pieces {
+				if i == at {
+					if pl, _, _ := conv.Receive([]byte(intr)); pl != nil {
+						got = append(got, pl)
+					}
+				}
+				if pl, _, _ := conv.Receive(p); pl != nil {
+					got = append(got, pl)
+				}
+			}
+			c.Count("c15:tagless-fragment")
+			c.Rep.Evaluations++
+			if len(got) != 1 || !bytes.Equal(got[0], data) {
+				c.Violate("foreign-instance-message-processed", "tagless-fragment", fmt.Sprintf("a version 2 format fragment %q shown to a version 3 conversation after piece %d changed what was delivered: %q instead of the peer's message", intr, at, got), nil)
 			}
 		}
 	}
